@@ -14,7 +14,7 @@ U = 9
 
 
 def lib_ns(s):
-    return "urn:o" if s["split"] == "import" else T
+    return "urn:o" if s["split"] in ("import", "importSameName") else T
 
 
 def _occ(mn, mx):
@@ -72,6 +72,8 @@ def schema_files(s) -> dict:
     body = f'<xs:element ref="l:h"{_occ(*s["occ"])}/>'
     if s["alsoM1"] and s["nmem"] >= 1:
         body += '<xs:element name="box"><xs:complexType><xs:sequence><xs:element ref="l:m1" minOccurs="0"/></xs:sequence></xs:complexType></xs:element>'
+    if s["split"] == "importSameName":
+        body += '<xs:element name="own" type="t:Base"/>'
     if s["ext"] != "none":
         body += '<xs:element name="e" type="l:Base"/>'
     if s["grp"] != "none":
@@ -87,7 +89,8 @@ def schema_files(s) -> dict:
         + "</xs:complexType></xs:element>"
         '<xs:group name="G"><xs:sequence><xs:element name="p" type="xs:int"/><xs:element name="q" type="xs:string" minOccurs="0"/></xs:sequence></xs:group>'
         '<xs:attributeGroup name="AG"><xs:attribute name="a1" type="xs:int" use="required"/><xs:attribute name="a2" type="xs:string"/></xs:attributeGroup>'
-        '<xs:complexType name="Node"><xs:sequence><xs:element name="v" type="xs:int"/><xs:element name="n" type="t:Node" minOccurs="0"/></xs:sequence></xs:complexType>'
+        + ('<xs:complexType name="Base"><xs:sequence><xs:element name="z" type="xs:string"/></xs:sequence></xs:complexType>' if s["split"] == "importSameName" else "")
+        + '<xs:complexType name="Node"><xs:sequence><xs:element name="v" type="xs:int"/><xs:element name="n" type="t:Node" minOccurs="0"/></xs:sequence></xs:complexType>'
     )
     head = f'<xs:schema xmlns:xs="{XS}" targetNamespace="{T}" xmlns:t="{T}" xmlns:l="{L}" elementFormDefault="qualified">'
     lib_head = f'<xs:schema xmlns:xs="{XS}" targetNamespace="{L}" xmlns:l="{L}" elementFormDefault="qualified">'
